@@ -155,6 +155,54 @@ theorem builder_never_repeats (h : WF U W) {v : VW} {la : Block} (hr : Reachable
       ∀ A, Anc U A P → ∀ t' ∈ A.txs, t'.id ≠ t.id :=
   builder_never_repeats_of_inv h (reachable_inv h hr).1 hidx hP hdesc hnow hfun hok
 
+theorem builderSelectFrom_mem {W now : Int} {m : List Nat} : ∀ (txs : List Tx) (i0 : Nat) (t : Tx),
+    t ∈ builderSelectFrom W now m i0 txs →
+      ∃ j, txs[j]? = some t ∧ (i0 + j) ∉ m ∧ now ≤ t.expiry ∧ t.expiry ≤ now + W := by
+  intro txs
+  induction txs with
+  | nil => intro i0 t h; simp [builderSelectFrom] at h
+  | cons x rest ih =>
+    intro i0 t h
+    unfold builderSelectFrom at h
+    have shift : ∀ {t}, t ∈ builderSelectFrom W now m (i0 + 1) rest →
+        ∃ j, (x :: rest)[j]? = some t ∧ (i0 + j) ∉ m ∧ now ≤ t.expiry ∧ t.expiry ≤ now + W := by
+      intro t ht
+      obtain ⟨j, hj, hnm, hv⟩ := ih (i0 + 1) t ht
+      exact ⟨j + 1, by simpa using hj, by
+        have e : i0 + (j + 1) = i0 + 1 + j := by omega
+        rw [e]; exact hnm, hv⟩
+    by_cases hc : m.contains i0 = true
+    · rw [if_pos hc] at h; exact shift h
+    · rw [if_neg hc] at h
+      by_cases hv : now ≤ x.expiry ∧ x.expiry ≤ now + W
+      · rw [if_pos hv] at h
+        cases h with
+        | head => exact ⟨0, by simp, by simpa using hc, hv⟩
+        | tail _ ht => exact shift ht
+      · rw [if_neg hv] at h; exact shift h
+
+/-- **C09, builder.** Nothing the builder selects from a mempool batch (unmarked by the batch's
+`IsRepeat` and executable at `nextTime`) occurs in any block of the parent's chain — for batches
+with expired, repeated and fresh txs in any order (markers are indices into the batch as
+streamed). -/
+theorem builder_select_no_repeat (h : WF U W) {v : VW} {la : Block} (hinv : SeenInv U v la)
+    {idx : Index} (hidx : ∀ i b, idx i = some b → U i = some b)
+    {P : Block} {fuel : Nat} (hP : InU U P) (hdesc : Anc U la P) {now : Int} (hnow : P.ts ≤ now)
+    {txs sel : List Tx}
+    (hfun : ∀ t ∈ txs, ∀ A, InU U A → ∀ t' ∈ A.txs, t'.id = t.id → t'.expiry = t.expiry)
+    (hsel : builderSelect idx W v fuel P now txs = some sel) :
+    ∀ t ∈ sel, ∀ A, Anc U A P → ∀ t' ∈ A.txs, t'.id ≠ t.id := by
+  unfold builderSelect at hsel
+  cases hr : isRepeatAPI idx W v fuel P now txs with
+  | err m => simp [hr] at hsel
+  | ok m =>
+    simp only [hr, Option.some.injEq] at hsel
+    subst hsel
+    intro t ht
+    obtain ⟨j, hj, hnm, hv⟩ := builderSelectFrom_mem txs 0 t ht
+    exact builder_never_repeats_of_inv h hinv hidx hP hdesc hnow hfun hr j t hj
+      (by simpa using hnm) hv.1
+
 /-! ### global distinctness along a chain -/
 
 /-- What verification establishes for one block (the conclusion of `no_repeat_of_inv`). -/
